@@ -360,7 +360,12 @@ class CounterToken(Token, FileSystemEventHandler):
                         "Not reading token file [%f <= %f]", timestamp, self.timestamp
                     )
 
-                total = int(self.infopath.read_text())
+                try:
+                    total = int(self.infopath.read_text())
+                except ValueError:
+                    # Being rewritten (another process is setting the token
+                    # up): the event of the write will follow
+                    return
                 delta = total - self.total
                 self.total = total
                 self.available += delta
